@@ -427,6 +427,24 @@ pub fn draw_bufcap(t: &mut Tape, small_max: u64) -> u64 {
     }
 }
 
+/// Plaintexts (hex) under which the literal-only range encoder's 33-bit `low`
+/// register holds exactly the given value at the moment a byte is shifted out:
+/// the two boundaries of "emit now / defer (pending 0xFF) / carry". Found by
+/// `lzsim rcwitness` (random data gets there with probability ~2^-32 per byte);
+/// the self-test re-derives the values with an independent model of the encoder.
+pub const RC_BOUNDARY_WITNESSES: [(u64, &str); 4] = [
+    (0xfeffffff, "2004a1508adec392b8919ff2069e8aa165061bee009b8c2cc59537068097270d6956855354f98eea1b93d7a144e4e7b56a0e7117444ab650b7b6750884df1260b3ba3dfd79fb9dba33c12e27ea09c6ec76507df945b6931f89f05201ffa59f710938f7060319496d8d00da51076db7749a419ea56d4842ce8a261bafab6d11e3e146bec831e3b1ce2f4f217848193df7b1f8476632b51dc986f2f7224edc5f5b8efca472cf1be984b1f5b25819e21b07da819b68c0c1db9aabf799d510812e206ed2d05a"),
+    (0xff000000, "2244199697b8515518208d2e86c430"),
+    (0xffffffff, "54fc3209e2e5b04f66f545e2ce9f899e40b6c01f89cb65cae6c49171f50bad32259070f0a4316050689d47a05a426924afe3df2a9a05a8"),
+    (0x100000000, "7420220a4aba039cd3b9dbd3a4a9d2"),
+];
+
+pub fn rc_witness(i: usize) -> (u64, Vec<u8>) {
+    let (v, h) = RC_BOUNDARY_WITNESSES[i % RC_BOUNDARY_WITNESSES.len()];
+    let b = (0..h.len() / 2).map(|k| u8::from_str_radix(&h[2 * k..2 * k + 2], 16).unwrap()).collect();
+    (v, b)
+}
+
 pub fn draw_bytes(t: &mut Tape, n: usize) -> Vec<u8> {
     (0..n).map(|_| t.byte()).collect()
 }
